@@ -5,7 +5,7 @@ import json, subprocess
 CHECKS = {
  # id: (engine, level, technique, level text, level note, design_ref)
  "C01": ("sched", "model_checking",
-         "TLA+ scheduler specification (ResSched.tla, one action per critical section of runWith/startWorker/processQueue/close): TLC checks MutualExclusion exhaustively for all interleavings of the MCSched configurations; TLC counterexamples of the unrepaired model and tlc -simulate behaviours are replayed on the real service through gate hooks, plus pairwise hook-point windows and perturbed stress; every real run is judged by occupancy monitors and by TLC evaluating the observer specification TraceSchedObs.tla on the recorded event trace",
+         "TLA+ scheduler specification (ResSched.tla, one action per critical section of runWith/startWorker/processQueue/close): TLC checks MutualExclusion exhaustively for all interleavings of the MCSched configurations; TLC counterexamples of the unrepaired model and tlc -simulate behaviours are replayed on the real service through gate hooks, plus pairwise hook-point windows and perturbed stress; every real run is judged by occupancy monitors and by TLC evaluating the observer specification TraceSchedObs.tla on the recorded event trace; in addition the hook-event log of a sample of the runs is validated action by action as a behaviour of ResSched itself (TraceSched.tla: in-lock hooks are linearization points, lock-free steps are silent actions pinned by the next event)",
          "Exhaustive model checking of the design for small configurations (2-3 workers, 2 producers, Shutdown at any point, restart) bound to the code by replaying model behaviours into the real goroutines and by TLC judging the observation traces of all real runs; a violation is two callbacks of one group observed executing at once on the real service.",
          "Harness callbacks stand for user handlers; steps inside sync primitives cannot be gated (replayed as closely as possible); group of a submission is taken from the real routing.",
          "4.0 C01"),
@@ -17,7 +17,7 @@ CHECKS = {
  "C03": ("sched", "model_checking",
          "same machinery as C01; safety (NoPanic, AfterShutdown, NoLateStart, deadlock freedom with an explicit Terminated step) and liveness under weak fairness (ShutdownReturns, ServeReturns) of ResSched.tla model-checked by TLC including a restart cycle; every counterexample of the model with the repairs switched off (RecheckUnderLock/GuardedConn = FALSE) is replayed on the real service; monitors: Shutdown/Serve watchdog with goroutine-dump classification, panic capture in every role and child-process crash detection, callbacks relative to Shutdown's return, worker exits, Close count",
          "Model checking of shutdown safety+liveness and restart, bound to the code by gate replay of model behaviours (including the model's own counterexamples as adversarial schedules) and TLC-judged observation traces; a violation is a real hang, panic, late callback, surviving worker or wrong close count.",
-         "Bounded time is the 3 s watchdog after all gates are opened; callbacks terminate; restart is explored after the previous Serve has returned.",
+         "Bounded time is the 3 s watchdog after all gates are opened; callbacks terminate; restart is explored both after the previous Serve call has returned and overtaking it (immediate-restart programs and loops).",
          "4.0 C03"),
  "C04": ("reqsim", "model_checking",
          "TLA+ request specification (ResRequest.tla: dispatch, reply funnel, recover, meta, event methods as one step function): TLC model-checks ExactlyOne/AtMostOne for every scenario of the bound x every handler script of up to 2 (thorough: 3) steps; request scenarios (every step alone, step pairs, the dispatch space, seeded random scripts) are executed on the real service over a recording connection and every request becomes a record judged by TLC against the reference outcome Run(sc) (TraceRequest.tla clauses C04:exactly-one, C04:survives)",
